@@ -63,6 +63,10 @@ def derivative_monitors(run):
     for n in range(n_runs):
         kind = 'SE2' if n % 2 == 0 else 'SE3'
         a, b = rp(kind), rp(kind)
+        if n % 12 == 3 and kind == 'SE3':
+            # a unit quaternion with a component so small that products of it underflow (legal floats; nothing may depend on the FP error state)
+            a[3:] = [1e-170, 0.0, 0.6, 0.8]
+            b[3:] = [0.0, -1e-200, -0.8, 0.6]
         if n % 6 >= 4:
             # two poses FAR from the origin and CLOSE to each other (geocentric / UTM-like coordinates, poses metres apart): the relative
             # quantities are small differences of large numbers
@@ -199,6 +203,20 @@ def check(run, cases=None):
                 ij = np.unravel_index(int(np.argmax(np.abs(M - exact))), M.shape)
                 run.violation(key, '%s: derivative entry %s along the manifold is %r, exact %r (dev %.3g > %.3g) | case %r' % (
                     name, ij, float(M[ij]), float(exact[ij]), dv, TOL * 10 * S, c), dict(case=c, exact=exact.tolist(), code=M.tolist()))
+        if k in ('SE2', 'SE3') and run.replayed % 2 == 0:
+            # d(a (+) b)/da and d(a (+) point)/da depend on the ROTATION of a and on b only: moving a astronomically far away (4e12) must not
+            # change them (a formula that recovers the lever arm as a difference of positions would lose it there)
+            a_far = a.copy()
+            a_far[:dm] = np.array([4.0e12, -3.0e12, 5.0e12][:dm])
+            for name, fn in (('oplus_self', lambda x: x.jacobian_self_oplus_other_wrt_self(b)), ('oplus_self_compact', lambda x: x.jacobian_self_oplus_other_wrt_self_compact(b)),
+                             ('point_self', lambda x: x.jacobian_self_oplus_point_wrt_self(pt))):
+                try:
+                    dvf = float(np.max(np.abs(np.asarray(fn(a_far), dtype=float) - np.asarray(fn(a), dtype=float))))
+                except Exception as e:  # noqa
+                    run.violation(dict(k=k, method=name, check='translation-independence'), 'exception %r | case %r' % (e, c), dict(case=c))
+                    continue
+                if dvf > 1e-9 * S:
+                    run.violation(dict(k=k, method=name, check='translation-independence'), '%s changes by %.3g when the receiver is moved to 4e12 (it depends on its rotation and on the other operand only) | case %r' % (name, dvf, c), dict(case=c))
         for full in ('oplus_self', 'oplus_other', 'ominus_self', 'ominus_other'):
             if full in got and full + '_compact' in got and got[full].shape[0] >= cd:
                 if not np.array_equal(got[full][:cd], got[full + '_compact']):
